@@ -95,29 +95,30 @@ type GhostVar struct {
 }
 
 type Spec struct {
-	Contracts map[string]*Contract
-	Behaviors map[string][]*Contract // function key -> its behaviours
-	SpecFuncs map[string]*SpecFunc
-	GhostVars map[string]*GhostVar
-	Axioms    []*Clause
-	AxiomPkg  map[*Clause]string
-	Lemmas    []*Clause
-	LemmaPkg  map[*Clause]string
-	Imports   map[string]map[string]string // pkgPath -> alias -> path
-	Files     []string
+	Contracts   map[string]*Contract
+	Behaviors   map[string][]*Contract // function key -> its behaviours
+	SpecFuncs   map[string]*SpecFunc
+	GhostVars   map[string]*GhostVar
+	Axioms      []*Clause
+	AxiomPkg    map[*Clause]string
+	OrderAccept map[string]string
+	Lemmas      []*Clause
+	LemmaPkg    map[*Clause]string
+	Imports     map[string]map[string]string // pkgPath -> alias -> path
+	Files       []string
 }
 
 func NewSpec() *Spec {
 	return &Spec{
 		Contracts: map[string]*Contract{}, Behaviors: map[string][]*Contract{}, SpecFuncs: map[string]*SpecFunc{}, GhostVars: map[string]*GhostVar{},
-		AxiomPkg: map[*Clause]string{}, LemmaPkg: map[*Clause]string{}, Imports: map[string]map[string]string{},
+		AxiomPkg: map[*Clause]string{}, LemmaPkg: map[*Clause]string{}, Imports: map[string]map[string]string{}, OrderAccept: map[string]string{},
 	}
 }
 
 var labelRe = regexp.MustCompile(`^\[([^\]]*)\]\s*`)
 var clauseKeywords = map[string]bool{"func": true, "spec": true, "ghost": true, "axiom": true, "import": true, "requires": true,
 	"ensures": true, "loop": true, "assert@call": true, "prologue": true, "epilogue": true, "modifies": true, "pure": true,
-	"assumed": true, "trusted": true, "maypanic": true, "lemma": true, "ground": true, "roundtrip": true, "jsoncompat": true, "tables": true, "nosafety": true, "safetykinds": true, "params": true, "safety": true, "fvtargets": true}
+	"assumed": true, "trusted": true, "maypanic": true, "lemma": true, "ground": true, "roundtrip": true, "jsoncompat": true, "tables": true, "orderfree": true, "orderaccept": true, "nosafety": true, "safetykinds": true, "params": true, "safety": true, "fvtargets": true}
 
 func splitLabels(rest string) ([]string, string) {
 	if m := labelRe.FindStringSubmatch(rest); m != nil {
@@ -341,7 +342,14 @@ func (s *Spec) ParseSpecFile(path, pkgPath string) error {
 			}
 			s.Lemmas = append(s.Lemmas, c)
 			s.LemmaPkg[c] = pkgPath
-		case "roundtrip", "jsoncompat", "tables":
+		case "orderaccept":
+			// orderaccept <function>#<ordinal> <reason>
+			parts := strings.SplitN(strings.TrimSpace(rest), " ", 2)
+			if len(parts) != 2 {
+				return fail("orderaccept <function>#<ordinal> <reason>")
+			}
+			s.OrderAccept[parts[0]] = strings.TrimSpace(parts[1])
+		case "roundtrip", "jsoncompat", "tables", "orderfree":
 			// JSON judgements over the type declarations (jsonrt.go)
 			labels, text := splitLabels(rest)
 			c := &Clause{Kind: kw, Labels: labels, Text: text, File: path, Line: rl.line}
